@@ -64,6 +64,11 @@ def least_squares(jacobian, data, weights, damping=None, copy_jacobian=False):
     jacobian = scaler.fit_transform(jacobian)
     if damping is None:
         regr = LinearRegression(fit_intercept=False)
+        if "tol" in regr.get_params():
+            # Newer scikit-learn uses tol (default 1e-6) as the cutoff for
+            # small singular values, which silently truncates moderately
+            # ill-conditioned systems. Use machine precision instead.
+            regr.set_params(tol=np.finfo("float64").eps * max(jacobian.shape))
     else:
         regr = Ridge(alpha=damping, fit_intercept=False)
     regr.fit(jacobian, np.ravel(data), sample_weight=weights)
